@@ -137,7 +137,15 @@ pub fn pair(o: Opt) -> BoxedStrategy<(String, String)> {
 		(gen::opt_of(gen::query(o), 3), gen::opt_of(gen::fragment(o), 3), gen::opt_of(gen::query(o), 3), gen::opt_of(gen::fragment(o), 3)),
 		0u8..10,
 	)
-		.prop_map(|((s1, s2, sd), (a1, a2, ad), (abs, absd), stem, sa, sb, (ta, tb), (qa, fa, qb, fb), qsame)| {
+		.prop_map(|((s1, s2, sd), (a1, a2, ad), (abs, absd), stem, mut sa, mut sb, (ta, tb), (qa, fa, mut qb, fb), qsame)| {
+			// 15 %: the two paths diverge at a pair of segments that are easily confused
+			// (same encoded length with one decoding to a prefix of the other, escapes vs literals, case)
+			const TWINS: [(&str, &str); 14] = [("%41b", "Abcd"), ("%7Euser", "~user12"), ("%41", "A"), ("%41", "%61"), ("ab", "abc"), ("abc", "ab"), ("A", "a"), ("%2e", "."), ("%2E%2E", ".."), ("a%2Fb", "a%2fb"), ("a%2Fb", "a"), ("x", "x%20"), ("%C3%A9", "%c3%a9"), ("%C3%A9b", "%C3")];
+			if absd % 7 == 1 {
+				let (x, y) = TWINS[(qsame as usize + sd as usize + ad as usize) % TWINS.len()];
+				sa.insert(0, x.to_string());
+				sb.insert(0, y.to_string());
+			}
 			let scheme_b = if sd == 0 { s2 } else { s1.clone() };
 			let auth_b = if ad == 0 { a2 } else { a1.clone() };
 			let abs_b = if absd == 0 { !abs } else { abs };
@@ -151,7 +159,28 @@ pub fn pair(o: Opt) -> BoxedStrategy<(String, String)> {
 			if tb {
 				pb.push(String::new())
 			}
-			let qb = if qsame < 3 { qa.clone() } else { qb };
+			let qb = if qsame < 3 {
+				qa.clone()
+			} else if qsame == 3 {
+				// same query up to ASCII letter case outside escapes
+				qa.as_ref().map(|q| {
+					let b: Vec<char> = q.chars().collect();
+					let mut out = String::new();
+					let mut i = 0;
+					while i < b.len() {
+						if b[i] == '%' && i + 2 < b.len() {
+							out.extend(&b[i..i + 3]);
+							i += 3;
+						} else {
+							out.push(if b[i].is_ascii_lowercase() { b[i].to_ascii_uppercase() } else { b[i].to_ascii_lowercase() });
+							i += 1;
+						}
+					}
+					out
+				})
+			} else {
+				qb.take()
+			};
 			let a = gen::repair(Parts { scheme: Some(s1), authority: a1, path: String::new(), query: qa, fragment: fa }, abs, pa, true);
 			let b = gen::repair(Parts { scheme: Some(scheme_b), authority: auth_b, path: String::new(), query: qb, fragment: fb }, abs_b, pb, true);
 			(recompose(&a), recompose(&b))
@@ -225,8 +254,8 @@ impl Prop for C15 {
 			("rel:a-above-b-directory", 5_000),
 			("rel:a-beside-b", 20_000),
 			("rel:a-is-b-directory", 2_000),
-			("rel:a-path-empty", 2_000),
-			("rel:b-path-empty", 2_000),
+			("rel:a-path-empty", 1_000),
+			("rel:b-path-empty", 1_000),
 			("a-has-query-or-fragment", 50_000),
 		]
 	}
